@@ -884,7 +884,7 @@ func c17OwnDirRealName(c *Ctx, loop, upd *ssa.Function, rule string) {
 	}
 	// (b) the event filter accepts <resolved own directory>/<base name of the config path>
 	isOwnDir := func(y ssa.Value) bool {
-		call, ok := y.(*ssa.Call)
+		call, ok := resolveLocalField(y).(*ssa.Call)
 		if !ok || calleeFullName(call) != "path/filepath.Dir" {
 			return false
 		}
@@ -916,7 +916,7 @@ func c17OwnDirRealName(c *Ctx, loop, upd *ssa.Function, rule string) {
 		}
 		baseOK := false
 		if bc, ok := els[1].V.(*ssa.Call); ok && calleeFullName(bc) == "path/filepath.Base" {
-			if p, ok := bc.Call.Args[0].(*ssa.Parameter); ok && p.Parent() == loop {
+			if p, ok := resolveLocalField(bc.Call.Args[0]).(*ssa.Parameter); ok && p.Parent() == loop {
 				baseOK = true
 			}
 		}
